@@ -33,12 +33,35 @@ def mode_of_fact(test: ast.AST, pol: bool) -> Optional[str]:
     return None
 
 
+def _sibling_conjuncts(ff: FuncFacts, node):
+    """Operands that hold together with `node` when the enclosing test is
+    true: every other operand of each `and` between the statement's test and
+    the node (whatever their order)."""
+    from .facts import _path_to
+    st = ff.stmt(node)
+    if st is None or isinstance(node, ast.stmt):
+        return []
+    out = []
+    path = _path_to(st, node)
+    for parent, child in zip(path, path[1:]):
+        if isinstance(parent, ast.BoolOp) and isinstance(parent.op, ast.And):
+            out += [v for v in parent.values if v is not child]
+        if isinstance(parent, ast.BinOp) and isinstance(parent.op, ast.BitAnd):
+            out += [v for v in (parent.left, parent.right) if v is not child]
+    return out
+
+
 def mode_at(ff: FuncFacts, node) -> Optional[str]:
     modes = set()
     for t, p in facts_at(ff, node):
         m = mode_of_fact(t, p)
         if m:
             modes.add(m)
+    if not modes:
+        for t in _sibling_conjuncts(ff, node):
+            m = mode_of_fact(t, True)
+            if m:
+                modes.add(m)
     if len(modes) == 1:
         return modes.pop()
     return None
